@@ -175,6 +175,20 @@ CHECKS = {
              "replays (harness transport; one nng_fini per driver process).",
         technique="TLA+ model checking (TLC) + replay of all behaviours under sanitizers and an accounting allocator",
         ref="DESIGN.md section 4, C03"),
+    "C16": dict(
+        text="TLA+ spec wire/Ws.tla: the HTTP/1.1 upgrade as the ws listener handles it (14 request shapes: status and whether the connection "
+             "persists) and the WebSocket frame receiver and sender in SP's message mode (reassembly with interleaved control frames; "
+             "mask, reserved bits, opcodes, minimal length encodings, control-frame size, continuation rules, text frames, "
+             "NNG_OPT_WS_RECVMAXFRAME and NNG_OPT_RECVMAXSZ with their close codes, in the order the code checks them; fragmentation by "
+             "NNG_OPT_WS_SENDMAXFRAME).  TLC -simulate behaviours are replayed against a real ws:// listener by a plain TCP peer which also "
+             "checks everything the server emits (status line, header block, Sec-WebSocket-Accept, frames unmasked / minimally encoded / no "
+             "reserved bits, pong echoes the ping, fragments in order) under I/O clamps of 1 and 3 bytes per system call and unclamped, "
+             "with payload scales 1 and 1000.",
+        note="Trusted: TLC, harness/drv_ws.c, the clamp hook, ASan/UBSan, accounting allocator. Server role only: the dialer side (masking of "
+             "emitted frames, validation of the 101 response), the HTTP client API, chunked transfer decoding and file handlers are "
+             "outside the specification.",
+        technique="TLA+ model checking (TLC) + simulation replay against a real ws:// listener under a short-I/O clamp",
+        ref="DESIGN.md section 4, C16"),
     "C17": dict(
         text="TLA+ spec data/Msg.tla: nng_msg as two run-length encoded byte strings plus a transcription of the nni_chunk "
              "geometry and buffer content; TLC checks refinement, in-bounds copies, capacity >= length, header <= 64 for all "
@@ -202,11 +216,7 @@ CHECKS = {
         ref="DESIGN.md section 4, C19"),
 }
 
-NOT_YET = {
-    "C16": "not claimed: the HTTP/WebSocket codec specifications (wire/WsFrame.tla, wire/Http.tla in the design) and a ws:// peer for the wire "
-           "driver were not built in the time available; the technique applies (same shape as C01/C11: item grammar + short-I/O clamp), "
-           "nothing is registered for it",
-}
+NOT_YET = {}
 
 
 def main():
